@@ -232,9 +232,28 @@ func analyseWalk(gc *GCNF, k int, foreign map[string]lin) (walkInfo, []string, b
 	}
 	var slots []slot
 	var bad []string
+	// ratio[j]: +1 when pointer j moves with the counter (next while counting up, prev while counting down), -1 when it moves
+	// against it (next while counting down: `for steps := index-1; steps > 0; steps--`): pos(slot) = ratio·counter + d
+	ratio := map[int]int{}
+	scale := func(l lin, r int) lin {
+		if r == 1 {
+			return l
+		}
+		return linConst(0).add(l, -1)
+	}
 	for j := 0; j < n; j++ {
 		if j == cslot {
 			continue
+		}
+		ratio[j] = 1
+		for _, b := range backs {
+			if j < len(b.Exit.Args) {
+				if v, isNil, ok := pos(b.Exit.Args[j]); ok && !isNil {
+					if h := v.add(linAtom("P"+itoa(j)), -1); len(h.c) == 0 && (h.k == 1 || h.k == -1) {
+						ratio[j] = h.k * step
+					}
+				}
+			}
 		}
 		isPtr := true
 		hops := false
@@ -278,7 +297,7 @@ func analyseWalk(gc *GCNF, k int, foreign map[string]lin) (walkInfo, []string, b
 			if isNil {
 				continue // nil stands for "before the first" / "after the last": fixed by the other entries or the back edges
 			}
-			dd := v.add(linOf(e.Exit.Args[cslot]), -1)
+			dd := v.add(scale(linOf(e.Exit.Args[cslot]), ratio[j]), -1)
 			if d != nil && d.String() != dd.String() {
 				bad = append(bad, fmt.Sprintf("loop %d: pointer %s enters with different offsets to the counter (%s vs %s)", k, phi(j), d.String(), dd.String()))
 			}
@@ -329,7 +348,8 @@ func analyseWalk(gc *GCNF, k int, foreign map[string]lin) (walkInfo, []string, b
 		}
 		if allCopy && src >= 0 {
 			if dsrc, ok := known[src]; ok {
-				d := dsrc.add(linConst(step), -1)
+				ratio[j] = ratio[src]
+				d := dsrc.add(linConst(step*ratio[src]), -1)
 				known[j] = d
 				slots = append(slots, slot{j, d})
 			}
@@ -342,7 +362,7 @@ func analyseWalk(gc *GCNF, k int, foreign map[string]lin) (walkInfo, []string, b
 			term := linAtom(x)
 			if strings.HasPrefix(x, "P") {
 				if d, ok := known[atoiOr(x[1:], -1)]; ok {
-					term = linAtom(phi(cslot)).add(d, 1)
+					term = scale(linAtom(phi(cslot)), ratio[atoiOr(x[1:], -1)]).add(d, 1)
 				}
 			}
 			for i := 0; i < c; i++ {
@@ -360,7 +380,7 @@ func analyseWalk(gc *GCNF, k int, foreign map[string]lin) (walkInfo, []string, b
 			if !ok || isNil {
 				continue
 			}
-			got := subst(v).add(linOf(b.Exit.Args[cslot]), -1)
+			got := subst(v).add(scale(linOf(b.Exit.Args[cslot]), ratio[s.j]), -1)
 			if got.String() != s.d.String() {
 				bad = append(bad, fmt.Sprintf("loop %d: a round moves pointer %s and the counter out of step (offset %s becomes %s): %s", k, phi(s.j), s.d.String(), got.String(), trunc(noEpoch(b.Exit), 200)))
 			}
@@ -429,9 +449,9 @@ func analyseWalk(gc *GCNF, k int, foreign map[string]lin) (walkInfo, []string, b
 				}
 			}
 		}
-		slotExit[ks+"."+itoa(s.j)] = exitVal.add(s.d, 1)
+		slotExit[ks+"."+itoa(s.j)] = scale(exitVal, ratio[s.j]).add(s.d, 1)
 		if used {
-			ep := exitVal.add(s.d, 1)
+			ep := scale(exitVal, ratio[s.j]).add(s.d, 1)
 			exitPos = append(exitPos, ep.String())
 			parts = append(parts, fmt.Sprintf("%s ends at %s", phi(s.j), ep.String()))
 		}
@@ -446,7 +466,7 @@ func analyseWalk(gc *GCNF, k int, foreign map[string]lin) (walkInfo, []string, b
 	posAfter = func(t *Term) (lin, bool) {
 		if t.Op == "φ" {
 			if d, ok := slotD[t.Leaf]; ok {
-				return exitVal.add(d, 1), true
+				return scale(exitVal, ratio[atoiOr(t.Leaf[len(ks)+1:], -1)]).add(d, 1), true
 			}
 			return lin{}, false
 		}
